@@ -612,7 +612,8 @@ def run(ctx):
              'the u32/i32/u64/i64/usize boundaries, 1e20, 1e40 and fractions; years-and-months literals over the i64/u64 boundaries of both digit groups and signs; iterations over 1-3 '
              'variables whose domains are ranges at the isize boundaries (both directions) and lists of 0-3 elements.  (2) totality, both builds, 7 parser entry points: every string '
              'literal of */src/tests/** (with the te_scope context of its test), token-level mutations of them, grammar-derived expressions, unary tests, arbitrary Unicode, escape '
-             'sequences, block / line comments with runs of * and / (0..6) at every place of the body, unterminated, around tokens, iteration variables starting with the keyword in, every built-in with 0-5 positional and named extreme arguments (10^4-element lists, maximal durations, far dates, DST gaps/folds, regex bombs), operators, '
+             'sequences, block / line comments with runs of * and / (0..6) at every place of the body, unterminated, around tokens, iteration variables starting with the keyword in, every built-in with 0-5 positional and named extreme arguments (10^4-element lists, maximal durations, far dates, DST gaps/folds, regex bombs), string functions whose match string holds characters of every UTF-8 length, times built with offset durations of a day or more and at the ends of i32, '
+             'sums of years-and-months durations at the ends of i64, user-defined functions with typed parameters (16 types) applied to empty / nested-empty / singleton / null / foreign arguments, operators, '
              'properties, filters, nesting depth 200 per recursive construct.  non-trivial = the code returned a non-null value',
         extra_cov={'exhaustive': False, 'builds': ['debug (overflow-checks on)', 'release (overflow-checks off)'], 'per_request': '8 MiB stack thread, catch_unwind, %d ms wall-clock limit, process death observed' % LIMIT_MS,
                    'termination_checks': term, 'tie_cases': n_tie, 'lr_token_sequences': n_lr, 'lr_accepted': n_lr_acc, 'ym_cases': n_ym, 'odometer_cases': n_odo, 'totality_cases_per_build': n_tot, 'generator_histogram(both builds)': hist, 'outcome_kinds': kinds},
